@@ -352,6 +352,20 @@ for trial in range(%d):
                 bad.append({"trial": trial, "what": "array input differs from scalar inputs", "charge": q, "cx": bool(kw_s)}); break
             if not np.allclose(np.asarray(arr[q]).ravel(), np.asarray(fun[q]).ravel(), rtol=1e-7, atol=1e-14):
                 bad.append({"trial": trial, "what": "Function1D input differs from array input", "charge": q, "cx": bool(kw_s)}); break
+    # Function1D profiles on an INTEGER-typed coordinate (np.arange): same answer as the evaluated profiles passed as float arrays
+    xi = np.arange(4)
+    f_ne = Interpolator1DArray(np.array([0., 1., 2., 3.]), np.array([1.3e18, 2.6e18, 3.9e18, 5.2e18]), "linear", "none", 0)
+    f_te = Interpolator1DArray(np.array([0., 1., 2., 3.]), np.array([2.6, 20.2, 37.8, 55.4]), "linear", "none", 0)
+    cases += 1
+    fa = fractional_abundance(data, carbon, np.array([f_ne(float(v)) for v in xi]), np.array([f_te(float(v)) for v in xi]))
+    try:
+        fi = fractional_abundance(data, carbon, f_ne, f_te, free_variable=xi)
+        di = from_elementdensity(data, carbon, 6e17 * np.ones(4), f_ne, f_te, free_variable=xi)
+    except Exception as e:
+        bad.append({"trial": trial, "what": "Function1D inputs on an integer-typed free variable raise", "error": repr(e)[:120]}); fi = di = None
+    if fi is not None and (any(not np.allclose(np.asarray(fi[q]).ravel(), np.asarray(fa[q]).ravel(), rtol=1e-7, atol=1e-14) for q in range(7)) or \
+            any(not np.allclose(np.asarray(di[q]).ravel(), np.asarray(fa[q]).ravel() * 6e17, rtol=1e-7, atol=1e-3) for q in range(7))):
+        bad.append({"trial": trial, "what": "Function1D inputs on an integer-typed free variable differ from the same profiles given as float arrays"})
     # densities and neutrality matching, species dictionaries in several key orders
     n_c = from_elementdensity(data, carbon, 6e17 * np.ones_like(ne), ne, te)
     n_he = from_elementdensity(data, helium, 2e18 * np.ones_like(ne), ne, te)
